@@ -560,7 +560,17 @@ fn gen_doc(rng: &mut Rng) -> DocCase {
     // mixed documents: mostly "a separate stream first, combined (the default) later", mostly without a signal
     let signal_at = if cc_mixed && rng.chance(3, 4) { None } else { signal_at };
     let cc_first_separate = cc_mixed && rng.chance(2, 3);
-    doc.family = if signal_at.is_some() { "signal" } else { "codes" }.into();
+    // single-script documents (Cram, --cram-compat): one test case may end the whole script with a plain `exit N`
+    // (N != the skip code); the test cases behind it never run and must not be reported as succeeded
+    let script_exit_at = if signal_at.is_none() && !cc_mixed && (format == "cram" || doc.cram_compat) && rng.chance(1, 4) { Some(rng.below(n)) } else { None };
+    doc.family = if signal_at.is_some() {
+        "signal"
+    } else if script_exit_at.is_some() {
+        "script-exit"
+    } else {
+        "codes"
+    }
+    .into();
     for i in 0..n {
         let mut t = DocTest {
             out: payload_lines(rng, 'o', 3),
@@ -653,7 +663,12 @@ fn gen_doc(rng: &mut Rng) -> DocCase {
                 1 => None,
                 _ => Some(*rng.pick(CODES)),
             };
-            if signal_at.is_some_and(|s| i > s) && rng.chance(1, 2) {
+            if script_exit_at == Some(i) {
+                let code = *rng.pick(&[0, 0, 0, 1, 3]);
+                t.behaviour = format!("exit:{code}");
+                t.expected = if code == 0 { None } else { Some(code) };
+            }
+            if (signal_at.is_some_and(|s| i > s) || script_exit_at.is_some_and(|s| i > s)) && rng.chance(2, 3) {
                 // a later test that would accept the empty output of a command that never ran
                 t.out.clear();
                 t.err.clear();
@@ -874,6 +889,8 @@ fn check_e2e(env: &Env, doc: &DocCase) -> Checked {
         }
     }
     let executed_signal = signal_pos.is_some_and(ran);
+    let script_exit_pos = if single_script(doc) { doc.tests.iter().position(|t| t.behaviour.starts_with("exit:")) } else { None };
+    let executed_script_exit = script_exit_pos.is_some_and(ran);
 
     let mut ck = Checked::held().bucket("e2e:doc").bucket(format!("e2e:fmt={fmt}"));
     let mut shape_src = format!("{fmt}|{}|{mixed}", doc.cli_stream);
@@ -912,6 +929,20 @@ fn check_e2e(env: &Env, doc: &DocCase) -> Checked {
             }
             return ck
                 .bucket("e2e:mixed-refused")
+                .bucket(format!("e2e:exit={code}"))
+                .shape(true, hash_bytes(shape_src.as_bytes()));
+        }
+        if single_script(doc) && executed_script_exit {
+            // the script ended before its last test case: scrut refuses the document (the base behaviour); nothing is
+            // reported as succeeded, so the run must not look like a success
+            if code == 0 {
+                return Checked::violated(
+                    format!("C05/e2e/exit-0-with-ended-script/{fmt}"),
+                    format!("a test case ended the script with `exit`, nothing was reported, but scrut exited 0: {:?}", doc_sample(doc)),
+                );
+            }
+            return ck
+                .bucket("e2e:script-exit-refused")
                 .bucket(format!("e2e:exit={code}"))
                 .shape(true, hash_bytes(shape_src.as_bytes()));
         }
@@ -995,6 +1026,11 @@ fn check_e2e(env: &Env, doc: &DocCase) -> Checked {
                     format!("test #{i} never ran (no marker) but is reported as success: {:?}", doc_sample(doc)),
                 );
             }
+            continue;
+        }
+        if script_exit_pos == Some(i) {
+            // the test case that ended the script: which output / code is attributed to it is not specified
+            ck = ck.bucket("e2e:script-exit-reported");
             continue;
         }
         if is_signal {
@@ -1168,6 +1204,7 @@ impl Monitor for C05 {
             ("e2e:fmt=cram".into(), tier.pick(15, 50)),
             ("e2e:fmt=md-cc".into(), tier.pick(12, 40)),
             ("e2e:mixed-refused".into(), tier.pick(6, 15)),
+            ("e2e:script-exit-refused".into(), tier.pick(4, 12)),
             ("e2e:detached".into(), tier.pick(5, 15)),
             ("e2e:signal-executed".into(), tier.pick(15, 50)),
             ("e2e:signal-pos=first".into(), tier.pick(3, 10)),
